@@ -132,6 +132,7 @@ def rule_len(chk, prog):
         for meth in symlen.SETTINGS_LEN_METHODS:
             owner = members[meth][1].name
             bad = []
+            pathdep = []
             unimpl = 0
             for g in accepted:
                 n_cfg += 1
@@ -142,9 +143,16 @@ def rule_len(chk, prog):
                     if ln[0] == "raises":
                         unimpl += 1
                         continue
+                    if ln[0] == "conflict":
+                        pathdep.append((g, ln[1], nf))
+                        continue
                     raise core.AnalysisError("%s.%s (%s): %s" % (c.name, meth, g.label(), ln[1]))
                 d = symlen.simplify(ln - nf, g.facts)
                 if d == symlen.Lin.c(0):
+                    continue
+                cf = [g.interp.conflicts[a] for a in d.atoms() if a in g.interp.conflicts]
+                if cf:
+                    pathdep.append((g, cf[0], nf))
                     continue
                 if d.uncertain():
                     raise core.AnalysisError("%s.%s (%s): length %r is not comparable with nfeat %r"
@@ -154,6 +162,17 @@ def rule_len(chk, prog):
             if unimpl == len(accepted):
                 chk.ok("len-agree", inst + " (raises: unimplemented)", nontrivial=False)
                 chk.note("len-agree", "%s:%s.%s" % (ST, c.name, meth), "always raises (%s); nothing to compare" % owner)
+                continue
+            if pathdep:
+                g, cfd, nf = pathdep[0]
+                chk.violation(
+                    "len-agree", ST, "%s.%s" % (c.name, meth), "len(%s()) == nfeat" % meth, members[meth][2].lineno,
+                    "the list returned by %s() gets a path-dependent number of entries: %s %s item(s) depending on %s, "
+                    "while nfeat = %r counts one per feature (configuration %s); on the path that adds fewer the list is "
+                    "shorter than nfeat"
+                    % (meth, ("each iteration of the loop at line %s appends" % cfd["loop_line"]) if cfd["loop_line"]
+                       else "the function appends", " or ".join(cfd["per_iteration"]),
+                       "; ".join(cfd["decided_by"]) or "a branch", nf, g.label()), instance=inst)
                 continue
             if bad:
                 g, ln, nf = bad[0]
@@ -1738,6 +1757,122 @@ def rule_noncontig(chk, eng):
         raise core.AnalysisError("noncontig: no array pointer argument found at the ctypes call sites")
 
 
+# ----------------------------------------------------------------------------
+# rule 5c: Python mirror of a size the C constructor derives
+# ----------------------------------------------------------------------------
+def _lin_to_poly(lin):
+    from sa import cpoly
+    out = cpoly.Poly.const(0)
+    if lin.const.denominator != 1:
+        return None
+    out = cpoly.Poly.const(int(lin.const))
+    for a, c in lin.terms:
+        if c.denominator != 1:
+            return None
+        out = out + cpoly.Poly.atom(symlen.atom_str(a)) * int(c)
+    return out
+
+
+def rule_mirror(chk, eng):
+    """A constructor that creates a C object (`lib.generate_x(byref(self._h), ..., c_int(n), ...)`) and keeps Python
+    attributes with the names of integer fields of that C struct (`self._nbeta` <-> `ccl->nbeta`): the Python value,
+    evaluated symbolically from the constructor (sa.symlen, boolean flags enumerated), must equal the value the C
+    function stores in the field when given the integers the call actually passes (sa.cpoly.FieldEval)."""
+    from sa import cpoly
+    n = 0
+    progs = {}
+    for s in eng.sites:
+        if not s.func.endswith(".__init__") or s.how != "direct":
+            continue
+        fn = pf.enclosing_func(s.node)
+        cls = pf.enclosing_class(fn) if fn is not None else None
+        if cls is None or not any("byref(self." in it[1].replace("ctypes.", "") for c, al in s.pairs if al for it in al):
+            continue
+        c0, al = s.pairs[0]
+        if c0 is None or al is None:
+            continue
+        mf, (h, name) = c0
+        proto = eng.c.lookup(name, mf.handles.get(h))
+        if proto is None:
+            continue
+        tu = eng.c.tus[proto.rel]
+        if s.rel not in progs:
+            progs[s.rel] = pf.Program(chk.tree, [s.rel])
+        prog = progs[s.rel]
+        mod = prog.module(s.rel)
+        init = pf.methods(cls).get("__init__")
+        flags = [a.arg for a, d in zip(reversed(init.args.args), reversed(init.args.defaults))
+                 if isinstance(d, ast.Constant) and isinstance(d.value, bool)]
+        if len(flags) > 3:
+            continue
+        import itertools
+        for combo in itertools.product([True, False], repeat=len(flags)):
+            fixed = dict(zip(flags, combo))
+            try:
+                it, rej = symlen.construct(prog, mod, cls, fixed)
+            except (symlen.NotComparable, RecursionError):
+                continue
+            if rej is not None:
+                continue
+            cargs = {}
+            ok_args = True
+            for j, (pn, pt) in enumerate(proto.params):
+                if j >= len(al) or eng.c.kind(pt) not in ("int", "long"):
+                    continue
+                m_ = _CINT.match(al[j][1]) or __import__("re").match(r"(?:ctypes\.)?c_\w+\((.*)\)$", al[j][1])
+                if not m_:
+                    continue
+                try:
+                    v = it.eval(ast.parse(m_.group(1), mode="eval").body, {}, cls, mod)
+                except (SyntaxError, symlen.NotComparable, symlen.Raised):
+                    continue
+                lin = it.as_int(v)
+                if lin is None:
+                    continue
+                pol = _lin_to_poly(symlen.simplify(lin, it.facts))
+                if pol is not None:
+                    cargs[pn] = pol
+            if not cargs:
+                continue
+            try:
+                ev = cpoly.FieldEval(tu, name, cargs)
+                try:
+                    ev.run()
+                except cpoly.Return:
+                    pass
+            except core.AnalysisError:
+                continue
+            for st_ in ev._all_structs():
+                for fname, fval in sorted(st_.fields.items()):
+                    if not isinstance(fval, cpoly.Poly):
+                        continue
+                    for attr in (fname, "_" + fname):
+                        if attr not in it.attrs:
+                            continue
+                        lin = it.as_int(it.attrs[attr])
+                        if lin is None or isinstance(it.attrs[attr], symlen.SeqV):
+                            continue
+                        pv = _lin_to_poly(symlen.simplify(lin, it.facts))
+                        if pv is None:
+                            continue
+                        n += 1
+                        cfg = ",".join("%s=%s" % kv for kv in sorted(fixed.items())) or "any"
+                        inst = "%s:%s self.%s mirrors %s->%s of %s [%s]" % (s.rel, cls.name, attr, st_.name, fname, name, cfg)
+                        if pv == fval:
+                            chk.ok("mirror", inst)
+                        else:
+                            chk.violation(
+                                "mirror", s.rel, s.func, "self.%s vs %s->%s" % (attr, st_.name, fname), s.line,
+                                "the constructor sets self.%s = %r, but %s, given the integers this call passes (%s), "
+                                "stores %s->%s = %r (configuration %s): arrays sized or checked with the Python value "
+                                "do not have the extent the C object uses"
+                                % (attr, pv, name, ", ".join("%s=%r" % kv for kv in sorted(cargs.items())), st_.name, fname,
+                                   fval, cfg), instance=inst)
+    chk.count("python attributes mirrored against C struct fields", n)
+    if n == 0:
+        raise core.AnalysisError("mirror: no constructor with a Python attribute named like a field of the C object it creates")
+
+
 def _analyse_own(chk):
     tree = chk.tree
     chk.rule("ffi", "ctypes call sites conform to the C prototypes (SysV landing slots, kinds, restype, callbacks)")
@@ -1776,6 +1911,9 @@ def _analyse_own(chk):
         chk.guard(rule_bound_prov, box["eng"])
         chk.rule("noncontig", "no provably strided view (inner-axis / stepped slice) reaches a ctypes pointer argument")
         chk.guard(rule_noncontig, box["eng"])
+        chk.rule("mirror", "python attributes named like integer fields of the C object a constructor creates hold the "
+                           "value C derives from the integers that constructor passes")
+        chk.guard(rule_mirror, box["eng"])
     else:
         chk.errors.append("rule_guards: not run because the ctypes engine failed")
     chk.floor("ffi", 50, "half of the 103 ctypes call sites")
@@ -1786,6 +1924,7 @@ def _analyse_own(chk):
     chk.floor("dispatch", 12, "half of the multi-arm string ladders")
     chk.floor("expnt-guard", 1, "eval_feat_exp")
     chk.floor("guards", 204, "half of the 408 frozen guard signatures")
+    chk.floor("mirror", 2, "ConvolutionCollection: nalpha, nbeta, has_vj (x flag configurations)")
     chk.floor("noncontig", 150, "half of the array pointer arguments at the ctypes call sites")
     chk.floor("bound-prov", 5, "(validated array, loop bound) pairs")
     chk.floor("reject-mode", 10, "half of the mode x class combinations")
@@ -1882,6 +2021,9 @@ def mutants(tree):
                "        for i in range(v1[1]):\n            yield v0[i], True\n\n    def iterate_l1_terms",
                "        for i in range(v1[1]):\n            yield v0[i], True\n            yield v0[i], True\n\n    def iterate_l1_terms",
                expect="len-agree"),
+        Mutant("len: one branch of the normalizer ladder appends nothing", ST,
+               "            elif usp == 0:\n                norms.append(None)\n", "            elif usp == 0:\n                pass\n",
+               expect="len-agree"),
         # ---- validate
         Mutant("validate: drop a _check_specs call (VI l1 specs -> l0 only)", ST,
                "        self._check_specs(self.l0_feat_specs, ALLOWED_I_SPECS_L0)\n"
@@ -1954,6 +2096,14 @@ def mutants(tree):
         Mutant("noncontig: attribute holds an inner-axis slice", "ciderpress/dft/lcao_interpolation.py",
                "            self._gaunt_coeff = get_deriv_ylm_coeff(self.lmax)",
                "            self._gaunt_coeff = get_deriv_ylm_coeff(self.lmax + 1)[:, : (self.lmax + 1) ** 2]", expect="noncontig"),
+        # ---- mirror
+        Mutant("mirror: python output count forgets the l=1 upper channel", LC,
+               "        self._nbeta = len(self._icontrib_ids)\n", "        self._nbeta = len(icontrib0_ids) + len(icontrib1m_ids)\n",
+               expect="mirror"),
+        Mutant("mirror: C is told another feature count than python keeps", LC,
+               "            ctypes.c_int(len(self._icontrib_ids)),\n            ctypes.c_int(1 if self._has_vj else 0),",
+               "            ctypes.c_int(len(self._icontrib0_ids)),\n            ctypes.c_int(1 if self._has_vj else 0),",
+               expect="mirror"),
         # ---- bound-prov
         Mutant("bound: total row count passed for the per-spin sample count (RBFEvaluator)", XE,
                "        n = X1.shape[-2]\n        for arr in [res, dres, X1]:", "        n = X1.size // self._nfeat\n        for arr in [res, dres, X1]:",
